@@ -129,6 +129,7 @@ package bigbuff
 //@ func (*ChanCaster).Add
 //@   maypanic
 //@   props C08
+//@   requires recv : x != nil
 //@   mode bv
 //@   ensures range : ret >= 0 && ret <= 2147483647
 //@   panics oob_pos : delta > 2147483647
@@ -153,6 +154,7 @@ package bigbuff
 //@ func (*ChanCaster).Send
 //@   maypanic
 //@   props C08
+//@   requires recv : x != nil
 //@   mode bv
 //@   ensures range : ret >= 0 && ret <= 2147483647
 //@   ensures shapes : atomics() == 1 || atomics() == 2 || atomics() == 5
@@ -299,6 +301,7 @@ package bigbuff
 //@ func (*Workers).worker
 //@   maypanic
 //@   props C14
+//@   requires recv : w != nil
 //@   # a running worker accounts for one unit of count: count is incremented once before each `go w.worker()`
 //@   # (Call/loop0 spawn invariant) and decremented only by a worker on its way out (this function).
 //@   rely counted : w.count >= 1
@@ -350,6 +353,7 @@ package bigbuff
 
 //@ func (*Worker).wait
 //@   props C17
+//@   requires recv : x != nil
 //@   # the wait goroutine belongs to a started instance: Do set stop/done before `go x.wait()` and only this
 //@   # function resets them (after <-x.done), so they are non-nil for as long as it runs.
 //@   rely alive : x.stop != nil && x.done != nil
@@ -544,6 +548,7 @@ package bigbuff
 
 //@ func (*Buffer).get
 //@   props C01 C03 C05 C12
+//@   requires recv : b != nil
 //@   holds R : b.mutex
 //@   requires member : true
 //@   nopanic always : true
@@ -882,6 +887,7 @@ package bigbuff
 
 //@ func (*Channel).pending
 //@   props C13
+//@   requires recv : c != nil
 //@   inline
 //@   holds W : c.mutex
 
@@ -1011,9 +1017,13 @@ package bigbuff
 
 //@ func (*Exclusive).CallAfter
 //@   props C10
+//@   requires recv : e != nil
 //@   maypanic
 //@   # the blocking form returns exactly the outcome received from the async form's channel
 //@   at-call (*Exclusive).CallAfterAsync#0 forward : arg1 == key && arg2 == value && arg3 == wait
+//@   # channel message invariant of outcome channels: the goroutine started for the call sends exactly one freshly allocated
+//@   # outcome before it closes the channel (`answered`, `payload` of call$1 / call$1$1$1), so what is received is non-nil
+//@   after-call recv#0 assume msg : ret0 != nil
 //@   ensures outcome : icalls("(*Exclusive).CallAfterAsync") == 1 && ret0 == lastrecv(ilast("(*Exclusive).CallAfterAsync", 0)).Result && ret1 == lastrecv(ilast("(*Exclusive).CallAfterAsync", 0)).Error
 
 //@ func (*Exclusive).CallAfterAsync
@@ -1025,6 +1035,7 @@ package bigbuff
 
 //@ func (*Exclusive).Call
 //@   props C10
+//@   requires recv : e != nil
 //@   maypanic
 //@   at-call (*Exclusive).CallAfter#0 forward : arg1 == key && arg2 == value && arg3 == 0
 //@   ensures outcome : ret0 == ilast("(*Exclusive).CallAfter", 0) && ret1 == ilast("(*Exclusive).CallAfter", 1)
@@ -1066,23 +1077,27 @@ package bigbuff
 
 //@ func (*ChanPubSub).C
 //@   props C06
+//@   requires recv : x != nil
 //@   maypanic
 //@   ensures chan : ret == x.ping.C
 
 //@ func (*Notifier).Subscribe
 //@   props C15
+//@   requires recv : n != nil
 //@   maypanic
 //@   at-call (*Notifier).SubscribeContext#0 forward : arg1 == nil && arg2 == key && arg3 == target
 //@   ensures once : icalls("(*Notifier).SubscribeContext") == 1
 
 //@ func (*Notifier).Publish
 //@   props C15
+//@   requires recv : n != nil
 //@   maypanic
 //@   at-call (*Notifier).PublishContext#0 forward : arg1 == nil && arg2 == key && arg3 == value
 //@   ensures once : icalls("(*Notifier).PublishContext") == 1
 
 //@ func (*Notifier).SubscribeCancel
 //@   props C15 C12
+//@   requires recv : n != nil
 //@   maypanic
 //@   # subscribes under a fresh cancellable child context, unsubscribes (once) when it is cancelled, and cancels it
 //@   # itself if subscribing panics
@@ -1097,7 +1112,7 @@ package bigbuff
 //@   props C15 C12
 //@   modular
 //@   maypanic
-//@   requires wired : ctx != nil
+//@   requires wired : ctx != nil && n != nil
 //@   at-call (*Notifier).Unsubscribe#0 aftercancel : cancelled(ctx) && arg1 == key && arg2 == target
 //@   ensures once : icalls("(*Notifier).Unsubscribe") == 1
 
@@ -1128,10 +1143,12 @@ package bigbuff
 
 //@ func (*consumer).Done
 //@   props C12
+//@   requires recv : c != nil
 //@   maypanic
 
 //@ func (*Channel).cleanup
 //@   props C12 C13
+//@   requires recv : c != nil
 //@   maypanic
 //@   # the cleanup goroutine closes the channel consumer as soon as its context is cancelled
 //@   at-call (*Channel).Close#0 aftercancel : cancelled(c.ctx)
@@ -1350,6 +1367,7 @@ package bigbuff
 
 //@ func (*Notifier).PublishContext
 //@   props C15
+//@   requires recv : n != nil
 //@   at-call builtin.append#3 eligible : keySubscriber.ctx == nil || lasterr(keySubscriber.ctx) == nil
 //@   # what is offered to a subscriber is decided by the published value and that subscriber alone: the value itself when
 //@   # it is valid, the zero value of the subscriber's element type for an untyped nil; always assignable to the element type
@@ -1390,6 +1408,7 @@ package bigbuff
 //@ func (*Notifier).SubscribeContext
 //@   maypanic
 //@   props C15
+//@   requires recv : n != nil
 //@   action mutex
 //@   ensures added : has(n.subscribers, key) && has(n.subscribers[key], rv_pointer(rv_of(target))) && n.subscribers[key][rv_pointer(rv_of(target))].ctx == ctx && n.subscribers[key][rv_pointer(rv_of(target))].target == rv_of(target)
 //@   ensures fresh : !(old(has(n.subscribers, key)) && old(has(n.subscribers[key], rv_pointer(rv_of(target)))))
@@ -1400,6 +1419,7 @@ package bigbuff
 //@ func (*Notifier).Unsubscribe
 //@   maypanic
 //@   props C15
+//@   requires recv : n != nil
 //@   action mutex
 //@   ensures removed : !(has(n.subscribers, key) && has(n.subscribers[key], rv_pointer(rv_of(target))))
 //@   # every other subscription (other key, or other target under the same key) is still there, unchanged
@@ -1465,11 +1485,13 @@ package bigbuff
 
 //@ func (*ChanPubSub).checkUsedFactoryFunction
 //@   props C06 C07
+//@   requires recv : x != nil
 //@   panics nofactory : x.broken == nil
 //@   nopanic factory : x.broken != nil
 
 //@ func (*ChanPubSub).checkBroken
 //@   props C06 C07
+//@   requires recv : x != nil
 //@   maypanic
 
 //@ func (*ChanPubSub).markBroken
@@ -1492,6 +1514,7 @@ package bigbuff
 
 //@ func (*ChanPubSub).addSubscribers
 //@   props C06 C07
+//@   requires recv : x != nil
 //@   inline
 
 //@ func (*ChanPubSub).Wait
